@@ -444,6 +444,42 @@ func lenientCall(fr *frame, instr *ssa.Call, fn value, args []value) (res value)
 	return call(fr.i, fr, instr.Pos(), fn, args)
 }
 
+// lenientInstr executes one instruction of a package initialiser; an instruction that cannot be executed yields poison (a value) or is
+// skipped (a store); a branch that cannot be decided ends the initialiser (whatever it has not initialised yet stays poison).
+func lenientInstr(fr *frame, instr ssa.Instruction) (k continuation) {
+	defer func() {
+		p := recover()
+		if p == nil {
+			return
+		}
+		switch p.(type) {
+		case infeasiblePanic, assumeFalsePanic:
+			panic(p)
+		}
+		why := fmt.Sprint(p)
+		if u, ok := p.(unsupportedPanic); ok {
+			why = u.msg
+		}
+		if len(why) > 160 {
+			why = why[:160]
+		}
+		if os.Getenv("GOSYM_TRACE_INIT") != "" {
+			fmt.Fprintf(os.Stderr, "[init %s] %s -> poison: %s\n", fr.fn.Pkg.Pkg.Path(), instr, why)
+		}
+		switch in := instr.(type) {
+		case *ssa.If, *ssa.Jump, *ssa.Return, *ssa.Panic:
+			fr.block = nil
+			k = kReturn
+		case ssa.Value:
+			fr.env[in] = poison{why: why}
+			k = kNext
+		default:
+			k = kNext
+		}
+	}()
+	return visitInstr(fr, instr)
+}
+
 // ---- session and exploration driver
 
 type Config struct {
@@ -508,6 +544,9 @@ func NewSession(prog *ssa.Program, sizes types.Sizes, cfg Config) *Session {
 				var cell value
 				if pkg.Pkg != nil && i.initWanted[pkg.Pkg.Path()] || pkg == i.reflectPackage {
 					cell = zero(mustDeref(v.Type()))
+					if wholeStored(pkg, v) {
+						cell = poison{why: "the initialiser of " + pkg.Pkg.Path() + "." + v.Name() + " could not be executed"}
+					}
 				} else if v.Name() == "init$guard" {
 					cell = false
 				} else {
@@ -715,4 +754,28 @@ func clip(s string, n int) string {
 		return s[:n]
 	}
 	return s
+}
+
+
+// wholeStored: the package initialiser assigns the global as a whole (var x = expr): until that store has run the variable is poison, not zero.
+var wholeStoredCache = map[*ssa.Package]map[*ssa.Global]bool{}
+
+func wholeStored(pkg *ssa.Package, g *ssa.Global) bool {
+	m, ok := wholeStoredCache[pkg]
+	if !ok {
+		m = map[*ssa.Global]bool{}
+		if f := pkg.Func("init"); f != nil {
+			for _, b := range f.Blocks {
+				for _, in := range b.Instrs {
+					if st, ok := in.(*ssa.Store); ok {
+						if gg, ok := st.Addr.(*ssa.Global); ok {
+							m[gg] = true
+						}
+					}
+				}
+			}
+		}
+		wholeStoredCache[pkg] = m
+	}
+	return m[g] && g.Name() != "init$guard"
 }
